@@ -241,6 +241,8 @@ def exclusion_compile_sites(ctx: Ctx) -> list[tuple[str, str, ast.Call, Any, str
     """(module, function, call node, abstract flags argument, description) for every exclusion compile/translate."""
     repo = ctx.repo
     out = []
+    incl: dict[int, Any] = {}
+    ctx.__dict__['_inclusion_sites'] = incl
     for fn_name in ('translate', 'compile_pattern'):
         fi = repo.func(WP, fn_name)
         ev = SymEval(repo, watch_calls=True, inline_only={'_wcparse:no_negate_flags'}, max_paths=20000)
@@ -255,6 +257,9 @@ def exclusion_compile_sites(ctx: Ctx) -> list[tuple[str, str, ast.Call, Any, str
                 ftag = repr(first)
                 is_excl = ('exclude' in ftag and name.endswith(fn_name)) or '[1:' in ftag
                 if not is_excl:
+                    if 'elem(' in ftag and 'expand' in ftag:
+                        fl2 = k.get('flags', a[1] if len(a) > 1 else None)
+                        incl.setdefault(id(node), (node, name, fn_name, []))[3].append(fl2)
                     continue
                 fl = k.get('flags', a[1] if len(a) > 1 else None)
                 seen.setdefault(id(node), (node, name, []))[2].append(fl)
@@ -286,6 +291,15 @@ def rule_exclusion_dotmatch(ctx: Ctx, rule: str) -> None:
                witness="fnmatch('.x', '*', flags=NEGATE|DOTMATCH... ) -- exclude='*' must also exclude dot files: "
                        "filter(['.a','b'], '*', flags=D, exclude='*') == []")
     ctx.floor(rule, 'exclusion compile sites in _wcparse', len(sites), 4)
+    # ... and only those: inclusion patterns keep the caller's DOTMATCH and keep their `**` capture groups
+    incl = ctx.__dict__.get('_inclusion_sites', {})
+    for node, name, fn_name, fls in incl.values():
+        forced = [f for f in fls if isinstance(f, BV) and (f.must_set(D) or f.must_set(NC))]
+        ctx.ob(rule, f'{WP}:{fn_name}/{name.split(":")[1]}(expanded)/not-forced', not forced and bool(fls), repo.loc(WP, node),
+               'inclusion patterns are compiled with the plain flags (no forced DOTMATCH / _NO_GLOBSTAR_CAPTURE)',
+               'plain' if not forced else 'DOTMATCH or _NO_GLOBSTAR_CAPTURE forced on inclusion patterns',
+               witness="globmatch('link/a.txt', '**/*.txt', G, REALPATH, exclude='x') must stay False: the `**` capture is what finds the symlink")
+    ctx.floor(rule, 'inclusion compile sites in _wcparse', len(incl), 2)
     # Glob
     gi = repo.func('glob', 'Glob.__init__')
     a = [s for s in walk_no_nested(gi.node) if isinstance(s, ast.Assign) and norm_src(s.targets[0]) == 'self.negate_flags']
